@@ -11,7 +11,10 @@ Import ListNotations RecordSetNotations.
 Lemma defimg_stable s0 d d' s m s2 m2 :
   DefImg s0 d d' s m -> (forall r p c, In c (kids s r p) -> c < next s /\ p < next s) -> d' < next s -> msub m m2 -> kstable s s2 -> DefImg s0 d d' s2 m2.
 Proof.
-  intros [A B C D F] KL Hd Hm Hk. pose proof Hk as [_ Hk']. constructor.
+  intros [A B C D F O1 O2 O3] KL Hd Hm Hk. pose proof Hk as [_ Hk']. constructor.
+  6:{ rewrite Hk' by exact Hd. revert O1. apply forall2_mono. intros a b H. apply Hm. exact H. }
+  6:{ rewrite Hk' by exact Hd. revert O2. apply forall2_mono. intros a b H. apply Hm. exact H. }
+  6:{ rewrite Hk' by exact Hd. revert O3. apply forall2_mono. intros a b H. apply Hm. exact H. }
   - intros p Hp. destruct (A p Hp) as [p' [H1 [H2 H3]]]. exists p'. split; [apply Hm; exact H1|]. split; [rewrite Hk' by exact Hd; exact H2|].
     apply (imgok_stable s0 RPins p p' s m s2 m2 H3); [apply (KL RPorts d' p' H2)|exact Hm|exact Hk].
   - intros p Hp. destruct (B p Hp) as [p' [H1 [H2 H3]]]. exists p'. split; [apply Hm; exact H1|]. split; [rewrite Hk' by exact Hd; exact H2|].
@@ -130,12 +133,12 @@ Proof.
 Qed.
 
 Lemma imgok_inner s0 rl p p' s s' m : kids s' rl p' = kids s rl p' -> ImgOK s0 rl p p' s m -> ImgOK s0 rl p p' s' m.
-Proof. intros Hk [A B]. split; [intros i Hi; destruct (A i Hi) as [i' H]; exists i'; rewrite Hk; exact H|intros i' Hi'; rewrite Hk in Hi'; apply B; exact Hi']. Qed.
+Proof. intros Hk [A [B C]]. split; [intros i Hi; destruct (A i Hi) as [i' H]; exists i'; rewrite Hk; exact H|split; [intros i' Hi'; rewrite Hk in Hi'; apply B; exact Hi'|rewrite Hk; exact C]]. Qed.
 
 Lemma defimg_inner s0 d d' s s' m :
   (forall r y, r <> RDefs -> r <> RLibs -> kids s' r y = kids s r y) -> DefImg s0 d d' s m -> DefImg s0 d d' s' m.
 Proof.
-  intros Hk [A B C D F].
+  intros Hk [A B C D F O1 O2 O3].
   assert (K1 : forall y, kids s' RPorts y = kids s RPorts y) by (intro y; apply Hk; discriminate).
   assert (K2 : forall y, kids s' RCables y = kids s RCables y) by (intro y; apply Hk; discriminate).
   assert (K3 : forall y, kids s' RChildren y = kids s RChildren y) by (intro y; apply Hk; discriminate).
@@ -147,6 +150,9 @@ Proof.
   - intros p Hp. destruct (C p Hp) as [p' H]. exists p'. rewrite K3. exact H.
   - intros p' Hp'. rewrite K1 in Hp'. apply D. exact Hp'.
   - intros p' Hp'. rewrite K3 in Hp'. apply F. exact Hp'.
+  - rewrite K1. exact O1.
+  - rewrite K2. exact O2.
+  - rewrite K3. exact O3.
 Qed.
 
 Lemma memb_true_In x l : memb x l = true <-> In x l.
